@@ -1,4 +1,5 @@
 import MQ.Inv.RingMain
+import MQ.Inv.PinMain
 /-!
 # C06 — spurious Full/Empty is only transient: quiescent state equals the model
 -/
@@ -29,5 +30,19 @@ theorem C06_quiescent_room_partial (N : Nat) (bcast : Bool) (wait : WaitK) (fut 
   intro s hs
   have I := rinv_goodRun r (rinv_init N bcast wait fut hN)
   exact ⟨I.g.tcle s hs, I.g.posle s hs, I.g.tcN⟩
+
+/-- C06 (no pin is left behind): in a reachable state of a broadcast queue in which no consumer is inside a
+receive attempt — in particular in every quiescent state — every pin counter is zero, so a send cannot be refused
+because of a pin: a `Full` caused by a pin is transient. (`PinInv`: the counter is exactly the number of consumers
+inside a pinned section.) -/
+theorem C06_no_pin_left_behind_partial (N : Nat) (wait : WaitK) (fut : Bool) (hN : 0 < N) (ls : List Label) (σ : St)
+    (r : NRun (init N true wait fut) ls σ) (hq : ∀ t, (σ.th t).pc.pinPos = none) : ∀ j, σ.ref j = 0 := by
+  intro j
+  obtain ⟨l, _, l2, l3⟩ := (pall_nrun r rfl (pall_init N wait fut hN)).1.p.cnt j
+  match l, l3, l2 with
+  | [], l3, _ => exact l3
+  | u :: _, _, l2 =>
+    obtain ⟨p, hp, _⟩ := (l2 u).mp (List.mem_cons_self ..)
+    rw [hq u] at hp; cases hp
 
 end MQ
